@@ -40,6 +40,7 @@ def BN(n):
 
 
 DMINE = {"op": "DoneMine", "is": [], "n": 0}
+TXB, TXC, TXR = ({"op": o, "is": [], "n": 0} for o in ("TxBegin", "TxCommit", "TxRead"))
 
 
 def scen(w, *progs):
@@ -49,7 +50,7 @@ def scen(w, *progs):
 def tla_op(o):
     seq = "<<%s>>" % ", ".join(str(i) for i in o["is"])
     return {"Begin": "BM(%s)" % seq, "Done": "DM(%s)" % seq, "Wait": "Wt(%d)" % (o["is"] or [0])[0],
-            "BeginNext": "BN(%d)" % o["n"], "DoneMine": "DMine"}[o["op"]]
+            "BeginNext": "BN(%d)" % o["n"], "DoneMine": "DMine", "TxBegin": "TxB", "TxCommit": "TxC", "TxRead": "TxR"}[o["op"]]
 
 
 def tla_scen(s):
@@ -133,18 +134,24 @@ def gen_schedules(ctx, name, nthreads, scens, preempt, simulate=None, seed=None,
     return parse_json_lines(r.out, "SCHED"), r
 
 
+TXN_LABELS = {"txn.read.next": "r_next", "txn.read.last": "r_last", "txn.read.begun": "r_begun", "txn.commit.lock": "c_lock",
+              "txn.commit.ts": "c_ts", "txn.commit.begun": "c_begun", "txn.commit.done": "c_done"}
+
+
 def label_of(point):
     if point == "x.lock":
         return "xlock"
+    if point in TXN_LABELS:
+        return TXN_LABELS[point]
     if point.startswith("wm."):
         return point[3:].replace(".", "_")
     return point
 
 
 # ------------------------------------------------------------------ driver
-def run_driver(ctx, scheds):
-    """Run schedules on the real WaterMark, one process per shard. Returns {sid: [events]}."""
-    binp = ctx.build("watermark")
+def run_driver(ctx, scheds, cmd="watermark"):
+    """Run schedules on the real code, one process per shard. Returns {sid: [events]}."""
+    binp = ctx.build(cmd)
     procs = []
     for part in chunks(scheds, ctx.workers):
         if not part:
@@ -154,7 +161,8 @@ def run_driver(ctx, scheds):
         with open(inp, "w") as fh:
             for s in part:
                 fh.write(json.dumps({k: s[k] for k in ("id", "w", "progs", "sched", "tail")}) + "\n")
-        p = subprocess.Popen([binp, "-in", inp, "-out", outp], stdout=subprocess.PIPE, stderr=subprocess.STDOUT, text=True)
+        p = subprocess.Popen([binp, "-in", inp, "-out", outp] + (["-dir", d] if cmd != "watermark" else []),
+                             stdout=subprocess.PIPE, stderr=subprocess.STDOUT, text=True)
         procs.append((p, outp))
     traces = {}
     for p, outp in procs:
@@ -162,9 +170,9 @@ def run_driver(ctx, scheds):
             out, _ = p.communicate(timeout=1800)
         except subprocess.TimeoutExpired:
             p.kill()
-            raise Undecided("watermark driver timed out")
+            raise Undecided("%s driver timed out" % cmd)
         if p.returncode != 0:
-            raise Undecided("watermark driver failed (%d): %s" % (p.returncode, out[-3000:]))
+            raise Undecided("%s driver failed (%d): %s" % (cmd, p.returncode, out[-3000:]))
         with open(outp) as fh:
             for line in fh:
                 ev = json.loads(line)
@@ -289,11 +297,207 @@ def nontrivial(evs):
     return False
 
 
+# ------------------------------------------------------------------ C05: the oracle over the watermark
+def scenarios_txn(rng):
+    two = [scen(4, [TXB, TXC, TXB, TXC], [TXB, TXR, TXR]),
+           scen(4, [TXB, TXC], [TXB, TXC, TXB, TXR]),
+           scen(4, [TXB, TXC, TXB, TXR], [TXB, TXR, TXB, TXC])]
+    three = [scen(4, [TXB, TXC], [TXB, TXC], [TXB, TXR, TXR]),
+             scen(4, [TXB, TXC], [TXB, TXC, TXB, TXR], [TXB, TXR, TXB, TXR])]
+    extra = rng.choice([[TXB, TXR, TXB, TXR, TXR], [TXB, TXC, TXB, TXR, TXR], [TXB, TXR, TXR, TXB, TXC]])
+    three.append(scen(4, [TXB, TXC], [TXB, TXC], extra))
+    return two, three
+
+
+def project_txn(evs):
+    """History first (it describes all commits that ever succeeded), then the begin/read/commit events in order."""
+    out, raw = [], []
+    # the DB is reused by consecutive schedules: timestamps are shifted so that each trace starts at 0
+    # (the property is invariant under the shift; identical traces can then be validated once)
+    lo = min([e["lo"] for e in evs if e["e"] == "History"] or [0])
+    for n, e in enumerate(evs):
+        if e["e"] == "History":
+            out.append({"e": "History", "k": e["k"], "lo": e["lo"] - lo, "vals": e["vals"]}); raw.append(n)
+    for n, e in enumerate(evs):
+        if e["e"] == "TxBegin":
+            out.append({"e": "TxBegin", "t": e["t"], "r": e["r"] - lo}); raw.append(n)
+        elif e["e"] == "TxRead":
+            out.append({"e": "TxRead", "t": e["t"], "k": e["k"], "v": e["v"]}); raw.append(n)
+        elif e["e"] == "TxCommit":
+            out.append({"e": "TxCommit", "t": e["t"], "tok": e["tok"], "ok": e["ok"]}); raw.append(n)
+    return out, raw
+
+
+def run_c05(ctx):
+    pid, quick = ctx.pid, ctx.tier == "quick"
+    ctx._specdir()
+    ctx.build("txnoracle")
+    pool = ThreadPoolExecutor(max_workers=max(2, ctx.workers))
+    gating = ["MC_txn2.cfg", "MC_txn3.cfg"]
+    fut_m1 = {c: pool.submit(ctx.tlc_or_undecided, "WaterMarkImpl", c, workers=max(1, ctx.workers // 3), timeout=1800, coverage=not quick, heap="3g")
+              for c in gating}
+    fut_red = None if quick else pool.submit(ctx.tlc_or_undecided, "WaterMarkImpl", "MC_txn_prefix.cfg", workers=1, timeout=600, heap="1g")
+    two, three = scenarios_txn(ctx.rng)
+    nsim = 300 if quick else 4000
+    plan = [("t2", 2, two[:2] if quick else two, 2 if quick else 3, None), ("t3", 3, three, 1 if quick else 2, None),
+            ("tsim2", 2, two, 1000, nsim), ("tsim3", 3, three, 1000, nsim)]
+    if not quick:
+        plan.append(("tsim3p", 3, three, 4, nsim))
+    gens = [(name, pool.submit(gen_schedules, ctx, name, n, sc, k, simulate="num=%d" % sim if sim else None,
+                               seed=ctx.seed * 100 + i if sim else None)) for i, (name, n, sc, k, sim) in enumerate(plan)]
+    scheds, gen_counts = [], {}
+
+    def add(sc, hist, src, expect=None):
+        lab = hist and isinstance(hist[0], dict)
+        scheds.append({"id": len(scheds), "w": 0, "progs": [[{"op": o["op"]} for o in p] for p in sc["progs"]],
+                       "sched": [h["t"] for h in hist] if lab else list(hist), "tail": True,
+                       "labels": [h["at"] for h in hist] if lab else None, "src": src, "expect": expect})
+    for name, f in gens:
+        lst, r = f.result()
+        gen_counts[name] = len(lst)
+        ctx.log("M2 %s: %d schedules (TLC %.0fs)" % (name, len(lst), r.wall))
+        if not lst:
+            raise Undecided("schedule generation %s produced nothing:\n%s" % (name, r.out[-1500:]))
+        for g in lst:
+            add(g, g["hist"], name)
+    cap = 2000 if quick else 40000
+    if len(scheds) > cap:
+        keep = sorted(ctx.rng.sample(range(len(scheds)), cap))
+        scheds[:] = [scheds[i] for i in keep]
+        for i, s in enumerate(scheds):
+            s["id"] = i
+    red = None
+    if fut_red is not None:
+        red = fut_red.result()
+        cex = parse_json_lines(red.out, "CEX")
+        if not red.violated or not cex:
+            raise Undecided("MC_txn_prefix.cfg is expected to be violated (it models the code as found) but TLC says: %s" % red.out[-1500:])
+        for g in cex[:2]:
+            add(g, g["hist"], "cex:MC_txn_prefix.cfg", expect="fixed")
+    for rp in json.load(open(os.path.join(VERIF, "findings", "watermark_replays.json"))):
+        if pid in rp["properties"]:
+            add(rp["schedule"], rp["schedule"]["sched"], "replay:" + rp["id"], expect=rp["id"] if rp.get("status") == "open" else "fixed")
+    ctx.log("M2: %s -> %d schedules" % (gen_counts, len(scheds)))
+    traces = run_driver(ctx, scheds, cmd="txnoracle")
+    if len(traces) != len(scheds):
+        raise Undecided("driver returned %d traces for %d schedules (a schedule left the DB unusable?): last events %s"
+                        % (len(traces), len(scheds), json.dumps([t[-1] for t in list(traces.values())[-2:]])[:1500]))
+    nsteps, drift, drift_at = 0, 0, None
+    for s in scheds:
+        evs = traces[s["id"]]
+        end = evs[-1]
+        if end["e"] != "End" or end.get("err") or end.get("panics") or end.get("blocked"):
+            raise Undecided("driver could not finish schedule %d (%s): %s" % (s["id"], s["src"], json.dumps(end)))
+        steps = [e for e in evs if e["e"] == "Step"]
+        nsteps += len(steps)
+        if s["labels"] is not None and not s["src"].startswith("cex:"):
+            got = [label_of(e["from"]) for e in steps if not e["tail"]]
+            if got != s["labels"] or any(e["e"] == "Skip" for e in evs) or any(e["tail"] for e in steps):
+                drift += 1
+                if drift_at is None:
+                    k = next((i for i, (a, b) in enumerate(zip(got, s["labels"])) if a != b), min(len(got), len(s["labels"])))
+                    drift_at = "schedule %d (%s) step %d: code at %s, spec at %s" % (
+                        s["id"], s["src"], k, got[k] if k < len(got) else "-", s["labels"][k] if k < len(s["labels"]) else "end")
+    if drift:
+        print("DRIFT family=WaterMark at=%s (%d of %d schedules: the code's step structure differs from WaterMarkImpl.tla)" % (drift_at, drift, len(scheds)), flush=True)
+        ctx.notes.append("drift: %d schedules; first: %s" % (drift, drift_at))
+    proj = {s["id"]: project_txn(traces[s["id"]]) for s in scheds}
+    order = [s["id"] for s in scheds]
+    # negative control: one recorded read replaced by another commit's token
+    ctl = None
+    for sid in order:
+        t = proj[sid][0]
+        idx = [j for j, e in enumerate(t) if e["e"] == "TxRead"]
+        if idx:
+            ctl = [dict(x) for x in t[:idx[-1] + 1]]
+            ctl[-1]["v"] = "c9.9" if ctl[-1]["v"] != "c9.9" else "NOTFOUND"
+            break
+    if ctl is None:
+        raise Undecided("no trace with a read: the driver is not exercising transactions")
+    proj[-1] = (ctl, None)
+    groups = {}
+    for i in order:
+        # token names and thread ids matter, schedule ids do not: identical abstract traces are validated once
+        groups.setdefault(json.dumps(proj[i][0]), []).append(i)
+    reps = [g[0] for g in groups.values()] + [-1]
+    groups["control"] = [-1]
+    parts = [p for p in chunks(reps, max(1, min(ctx.workers, 8))) if p]
+    futs = [pool.submit(ctx.validate_traces, "TxnPropTrace", "TxnPropTrace.cfg", [proj[i][0] for i in part], timeout=1500) for part in parts]
+    rejected, ctl_rejected = [], set()
+    for part, f in zip(parts, futs):
+        for (ti, line, pev, want) in f.result():
+            if part[ti] < 0:
+                ctl_rejected.add(line)
+                continue
+            for sid in groups[json.dumps(proj[part[ti]][0])]:
+                rejected.append((sid, line, pev, want))
+    if ctl_rejected != {len(ctl) - 1}:
+        raise Undecided("negative control not rejected exactly at the corrupted read (%s): the trace specification does not bind read replies" % sorted(ctl_rejected))
+    nevents = sum(len(proj[i][0]) for i in order)
+    ctx.log("M3: %d traces / %d abstract events (%d scheduler steps; %d distinct abstract traces sent to TLC), %d contradictions"
+            % (len(order), nevents, nsteps, len(reps) - 1, len(rejected)))
+    reported = set()
+    for (sid, line, pev, want) in sorted(rejected, key=lambda r: (r[0], r[1])):
+        if sid in reported:
+            continue
+        reported.add(sid)
+        s = scheds[sid]
+        rp = ctx.save_replay("violation-%d.json" % sid, {"schedule": {k: s[k] for k in ("progs", "sched", "tail")}, "source": s["src"],
+                                                         "rejected_event": pev, "expected": want, "trace": traces[sid]})
+        ctx.violation(rp, "a transaction's read contradicts its snapshot: %s expected %s" % (json.dumps(pev), want))
+    m1 = {}
+    for c in gating:
+        r = fut_m1[c].result()
+        if r.violated or not r.ok:
+            raise Undecided("M1: WaterMarkImpl.tla under %s: %s\n%s" % (c, r.violated or "did not complete", r.out[-2500:]))
+        m1[c] = r
+        ctx.log("M1 %s: %d generated, %d distinct, depth %d (%.0fs)" % (c, r.generated, r.distinct, r.depth, r.wall))
+    if red is not None:
+        ctx.log("M1 MC_txn_prefix.cfg (expected red, the code as found): %s after %d distinct states" % (red.violated, red.distinct))
+    distinct = {json.dumps([s["progs"], s["sched"]]) for s in scheds if nontrivial_txn(traces[s["id"]])}
+    sample = scheds[0]
+    ctx.evidence("model_checking", {
+        "states": sum(r.distinct for r in m1.values()), "transitions": sum(r.generated for r in m1.values()),
+        "traces_validated_against_impl": len(order), "evaluations": len(scheds), "distinct_nontrivial": len(distinct),
+        "rule": "schedules (thread ids) enumerated by TLC from WaterMarkImpl.tla with the oracle ops TxBegin/TxCommit/TxRead: every interleaving with <= k "
+                "pre-emptions (2 threads k=%d, 3 threads k=%d) plus %d random walks per thread count, plus recorded replays; each executed on a real DB "
+                "(DetectConflicts=true) whose transaction threads park at the yield points of txn.go and, inside txnMark calls, of watermarker.go; "
+                "non-trivial = a transaction begins (oracle.readTs) while a commit is between drawing its timestamp and finishing doneCommit; "
+                "distinct by (programs, schedule)" % (plan[0][3], plan[1][3], nsim),
+        "samples": [{"schedule": {k: sample[k] for k in ("progs", "sched")}, "abstract_events": proj[sample["id"]][0]}],
+        "m1": {c: {"generated": r.generated, "distinct": r.distinct, "depth": r.depth, "coverage_zero": r.coverage_zero} for c, r in m1.items()},
+        "generated": gen_counts, "scheduler_steps": nsteps, "abstract_events_validated": nevents,
+        "distinct_abstract_traces_validated_by_tlc": len(reps) - 1, "contradictions": len(rejected), "drift_schedules": drift,
+        "negative_control": "a recorded trace with one read reply replaced was rejected at that read",
+        "checker_cmd": "tlc -config MC_txn3.cfg WaterMarkImpl.tla ; tlc -config TxnPropTrace.cfg TxnPropTrace.tla",
+    }, assumptions=[
+        "the reference for a read at timestamp r is what the same DB shows at version r after all transactions have finished (GetVersionedEntry, memtable only)",
+        "calls on readMark run without scheduling points; the commit pipeline's background goroutines are not scheduled (a step lasts until the thread's next yield point)",
+        "every commit writes both keys, no conflicts (committers do not read); window of 65536 slots: no rebuild (DB reopened every 400 schedules)",
+        "TLC results hold for the scenarios in the cfg files (2 committers + 1 reader, or 2 threads with two transactions each)",
+    ])
+    pool.shutdown(wait=False)
+
+
+def nontrivial_txn(evs):
+    """Some thread takes a step of oracle.readTs while another is parked between drawing a commit timestamp and the end of doneCommit."""
+    at = {}
+    for e in evs:
+        if e["e"] == "Step":
+            if e["from"].startswith("txn.read") and any(
+                    t != e["t"] and (p.startswith("wm.") or p in ("txn.commit.ts", "txn.commit.begun", "txn.commit.done")) for t, p in at.items()):
+                return True
+            at[e["t"]] = e["to"]
+    return False
+
+
 # ------------------------------------------------------------------ the check
 def run(ctx):
     pid, quick = ctx.pid, ctx.tier == "quick"
+    if pid == "C05":
+        return run_c05(ctx)
     if pid != "C32":
-        raise Undecided("checks/watermark.py serves C32 only")
+        raise Undecided("checks/watermark.py serves C32 and C05 only")
     ctx._specdir()
     ctx.build("watermark")
     pool = ThreadPoolExecutor(max_workers=max(2, ctx.workers))
